@@ -49,6 +49,7 @@ func viaCLI(files map[string]string, stdin string, args []string, collect func(d
 		os.WriteFile(filepath.Join(dir, "out.txt"), []byte(strings.Repeat("stale line from an earlier run\n", 2000)), 0644)
 		args = append(append([]string{}, args...), "-o", "{dir}/out.txt")
 	}
+	args = spellSwitches(args, cliCounter)
 	a := make([]string, len(args))
 	for i, x := range args {
 		a[i] = strings.ReplaceAll(x, "{dir}", dir)
@@ -91,4 +92,47 @@ var errUseStdout = fmt.Errorf("use standard output")
 // viaCLINoFile: standard output only (for commands whose -o has another meaning)
 func viaCLINoFile(files map[string]string, args []string) result {
 	return viaCLI(files, "", args, func(string) (string, error) { return "", errUseStdout })
+}
+
+// the on/off options of each command
+var cliSwitches = map[string][]string{
+	"snps":         {"--hard-gaps", "--aggregate"},
+	"variants":     {"--aggregate", "--append-snps"},
+	"toMultiAlign": {"--pad"},
+	"toPairAlign":  {"--omit-reference", "--skip-insertions"},
+	"closest":      {"--table"},
+	"topranking":   {"--table", "--no-fill"},
+}
+
+// spellSwitches: a switch can be given bare (`--pad`), with its value (`--pad=true`), or switched off explicitly
+// (`--pad=false`, what a templated script writes); one call in three uses the explicit forms
+func spellSwitches(args []string, n int) []string {
+	if n%3 != 0 {
+		return args
+	}
+	var sw []string
+	for _, a := range args {
+		if s, ok := cliSwitches[a]; ok {
+			sw = s
+		}
+	}
+	if sw == nil {
+		return args
+	}
+	out := append([]string{}, args...)
+	given := map[string]bool{}
+	for i, a := range out {
+		for _, s := range sw {
+			if a == s {
+				given[s] = true
+				out[i] = s + "=true"
+			}
+		}
+	}
+	for _, s := range sw {
+		if !given[s] {
+			out = append(out, s+"=false")
+		}
+	}
+	return out
 }
